@@ -3,7 +3,7 @@
    Specification cursor: a zipper over the sorted association list (Base/SortedMap.v).
    Model: the gap logic of btree_cursor.rs at the list level (Btree/Cursor.v). *)
 From Coq Require Import List NArith Bool.
-From RV Require Import Base.Bytes Base.SortedMap Base.SortedMapP Btree.Cursor Btree.CursorP Btree.Inst Btree.InstP.
+From RV Require Import Base.Bytes Base.SortedMap Base.SortedMapP Btree.Tree Btree.Mutator Btree.Cursor Btree.CursorP Btree.Packing Btree.PackingP Btree.Inst Btree.InstP.
 Import ListNotations.
 
 (* ---- the specification cursor is the sorted map's cursor -------------------------------------- *)
@@ -75,6 +75,24 @@ Theorem c18_cursor_refines : forall K V (cmp : K -> K -> comparison), OrderLaws 
   xs = ys /\ m_close st' = cursor_map c'.
 Proof. exact (@cursor_session_refines). Qed.
 
+(* ---- how a flushed run is cut into leaves (build_replacement_leaves) --------------------------- *)
+(* packing_inv: greedy packing + tail rebalance loses, duplicates and reorders nothing; every leaf is
+   non-empty; the separators route (leaf <= its separator < next leaf; the final separator is the
+   greatest key); every greedily planned leaf fits a page or holds a single pair.  For every buffer,
+   page size, size functions and valid separator function.  (Where these leaves go in the tree --
+   splice_insert_run / rebuild_branch_level -- is NOT modelled.) *)
+Theorem c18_packing_inv : forall K V (cmp : K -> K -> comparison), OrderLaws cmp ->
+  forall (ksize : K -> N) (vsize : V -> N) (fixed_k fixed_v : bool) (page_size : N) (sep : K -> K -> K),
+  valid_sep cmp sep ->
+  forall (es : list (K * V)) (dflt : K), sorted cmp es ->
+  let out := replacement_leaves ksize vsize fixed_k fixed_v page_size sep es dflt in
+  concat (List.map fst out) = es /\
+  Forall (fun p => fst p <> []) out /\
+  seps_chain cmp out /\
+  Forall (fun c => leaf_split_required fixed_k fixed_v page_size (nlen c) (leaf_bytes ksize vsize c) = false)
+         (plan ksize vsize fixed_k fixed_v page_size es).
+Proof. exact (@packing_inv_lemma). Qed.
+
 (* ---- non-vacuity ---------------------------------------------------------------------------- *)
 Definition ex_map : @map key bytes := [(KU64 10, [1]); (KU64 20, [2]); (KU64 30, [3])]%N.
 Definition ex_ops : list (@cursor_op key bytes) :=
@@ -97,3 +115,11 @@ Proof.
   cbv zeta. split; [apply (sortedb_sound key_cmp key_cmp_laws); vm_compute; reflexivity|].
   vm_compute. split; reflexivity.
 Qed.
+
+(* packing on a 64-byte page: 7 pairs needing 14 bytes each (4 + 14 n <= 64 admits 4) are cut into 4 + 3 *)
+Example c18_nonvacuous_packing :
+  let es := List.map (fun n => (KU64 n, [n; n])) [1;2;3;4;5;6;7]%N in
+  List.map (fun p => (length (fst p), snd p))
+           (replacement_leaves key_size val_size true false 64%N (fun l r : key => l) es (KU64 0)) =
+  [(4%nat, KU64 4); (3%nat, KU64 7)].
+Proof. vm_compute. reflexivity. Qed.
